@@ -568,6 +568,79 @@ def r14_4(prog: Program, chk: Check) -> None:
         chk.ob("R14.4", f"value::union-model::{k}", not bad, site, f"{counts[k]} cases, {len(bad)} failing" + (f"; first: {bad[0]}" if bad else ""), witness=bad[:4])
 
 
+# ------------------------------------------------------------------- R14.5
+def r14_5(prog: Program, chk: Check) -> None:
+    import itertools
+
+    from ..minterp import AssertionFailed, ModelError, PyRaise, Unsupported
+    from . import assign_model as amod
+
+    chk.rule(
+        "R14.5",
+        "equality of unions as a finite model: MultiValuedValue.__eq__ (and _get_known_subvals, which switches on for unions of ten or more members) is interpreted from its AST on "
+        "unions of 2, 3, 11 and 12 members (literals, classes, two or three non-literal members) and on their reorderings: a union equals every reordering of itself, in both "
+        "directions, and does not equal a union that differs in one member, lacks one or has one more - the order-insensitivity that makes unite_values commutative also for large unions",
+        floor=3,
+    )
+    am = amod.AssignModel(prog)
+    found = prog.find_method("MultiValuedValue", "__eq__")
+    if found is None:
+        raise AnchorError("MultiValuedValue.__eq__ not found")
+    eq_fn = found[1]
+    it = am._interp(amod.Obj("ctx"))
+
+    def eq(a, b):
+        try:
+            r = it.call_def(eq_fn, [a, b], eq_fn)
+        except Unsupported as u:
+            raise AnchorError(f"MultiValuedValue.__eq__ cannot be modelled: {u}")
+        except (AssertionFailed, PyRaise, ModelError) as e:
+            return ("crash", str(e))
+        return bool(r)
+
+    lits = [am.known(i) for i in range(9)] + [am.known("a")]
+    non_lits = [am.typed(str), am.typed(bytes), am.typed(float)]
+    bases = [
+        [am.known(1), am.typed(str)],
+        [am.typed(int), am.typed(str), am.known(None)],
+        lits + non_lits[:2],
+        lits + non_lits,
+        [am.known(i) for i in range(11)],
+    ]
+    bad_same, bad_diff, crashes = [], [], []
+    n = 0
+    for members in bases:
+        u = am.with_known_subvals(am.union(members))
+        orders = [list(reversed(members)), members[1:] + members[:1], members[:-2] + [members[-1], members[-2]]]
+        for order in orders:
+            p = am.with_known_subvals(am.union(order))
+            for a, b in ((u, p), (p, u)):
+                n += 1
+                r = eq(a, b)
+                d = {"left": amod.show(a)[:120], "right": amod.show(b)[:120]}
+                if isinstance(r, tuple):
+                    crashes.append({**d, "error": r[1]})
+                elif not r:
+                    bad_same.append(d)
+        for other_members in (members[:-1] + [am.typed(complex)], members[:-1] + [am.known("zz")], members[:-1], members + [am.typed(complex)]):
+            if len(other_members) < 2:
+                continue
+            other = am.with_known_subvals(am.union(other_members))
+            for a, b in ((u, other), (other, u)):
+                n += 1
+                r = eq(a, b)
+                d = {"left": amod.show(a)[:120], "right": amod.show(b)[:120]}
+                if isinstance(r, tuple):
+                    crashes.append({**d, "error": r[1]})
+                elif r:
+                    bad_diff.append(d)
+    chk.model_evaluations += n
+    site = prog.site("value", eq_fn)
+    chk.ob("R14.5", "value::union-equality-model::a union equals its reorderings", not bad_same, site, f"{n} comparisons, {len(bad_same)} reorderings unequal" + (f"; first: {bad_same[0]}" if bad_same else ""), witness=bad_same[:4])
+    chk.ob("R14.5", "value::union-equality-model::unions with different members are unequal", not bad_diff, site, f"{len(bad_diff)} different unions equal" + (f"; first: {bad_diff[0]}" if bad_diff else ""), witness=bad_diff[:4])
+    chk.ob("R14.5", "value::union-equality-model::no-crash", not crashes, site, f"{len(crashes)} crashes" + (f"; first: {crashes[0]}" if crashes else ""), witness=crashes[:3])
+
+
 def run(prog: Program, chk: Check) -> None:
     guard(chk, r14_1, prog, chk)
     guard(chk, r14_1b, prog, chk)
@@ -575,3 +648,4 @@ def run(prog: Program, chk: Check) -> None:
     guard(chk, r14_2b, prog, chk)
     guard(chk, r14_3, prog, chk)
     guard(chk, r14_4, prog, chk)
+    guard(chk, r14_5, prog, chk)
